@@ -15,7 +15,7 @@ def sh(cmd, cwd=None, env=None, timeout=3000):
 
 def main():
     prop = sys.argv[1]
-    wt = '/tmp/wt-%s' % prop
+    wt = '/tmp/%s-%s' % (os.environ.get('WT_PREFIX', 'wt'), prop)
     ks = sys.argv[2:] or sorted(d for d in os.listdir(os.path.join(wt, 'out')) if d.isdigit())
     tier = os.environ.get('TIER', 'quick')
     out = {}
@@ -51,7 +51,7 @@ def main():
         print('%s/%s confirmed=%s caught=%s  %s' % (prop, k, res.get('demo_clean_rc') == 0 and res.get('demo_patched_rc', 0) != 0
                                                   and res.get('suite_same', True), res.get('caught'),
                                                   json.dumps(res.get('checks', {}))[:400]), flush=True)
-    with open('/tmp/eval-%s.json' % prop, 'w') as f:
+    with open('/tmp/eval-%s-%s.json' % (os.environ.get('WT_PREFIX', 'wt'), prop), 'w') as f:
         json.dump(out, f, indent=1)
 
 
